@@ -193,6 +193,14 @@ func init() {
 			n := 140 * c.Scale
 			vms, k := 8, 3
 			for _, cs := range conc.Generate(c.R.Fork(), n) {
+				// watchdog: a case takes milliseconds; a compile or run that does not come back within two
+				// minutes (state shared by the VMs was corrupted into something cyclic, a lock is held for
+				// ever) is a failure of the property, and nothing after it in this process can be trusted
+				if hung := concHangs(cs, vms, k, unsafe); hung != "" {
+					c.Violation(PropViolation{Property: "C08", What: "after earlier VMs ran, " + hung + " does not terminate (120 s): the runs left process-wide state of the library changed",
+						Input: cs.Src, Sig: "C08:hang:" + cs.Family})
+					return
+				}
 				bc, noOpt, err := cs.CompileAny()
 				if err != nil {
 					c.Count("compile-error:" + cs.Family)
@@ -269,4 +277,38 @@ func tail2(s string, n int) string {
 		return s[:n]
 	}
 	return s
+}
+
+// concHangs runs the case once under a watchdog (the real run of the case follows and repeats the
+// work; a case costs milliseconds) and names the phase that did not return.
+func concHangs(cs *conc.Case, vms, k int, solo bool) string {
+	phase := make(chan string, 4)
+	done := make(chan struct{})
+	go func() {
+		defer close(done)
+		defer func() { _ = recover() }()
+		phase <- "compiling the script"
+		bc, _, err := cs.CompileAny()
+		if err != nil || !conc.Bounded(bc, cs.Recover, vms) {
+			return
+		}
+		phase <- "running the script"
+		if solo {
+			conc.RunOne(bc, cs.Recover, 0)
+		} else {
+			conc.RunConcurrent(cs, bc, vms, 1)
+		}
+	}()
+	last := "starting"
+	timeout := time.After(120 * time.Second)
+	for {
+		select {
+		case p := <-phase:
+			last = p
+		case <-done:
+			return ""
+		case <-timeout:
+			return last
+		}
+	}
 }
